@@ -60,6 +60,14 @@ pub fn gen_c05(tier: &str, rng: &mut Rng, w: &mut dyn Write) {
             tok_line(w, "parse_token", &s);
         }
     }
+    // weight literals whose correct rounding is decided by a digit far beyond f64's precision
+    for (i, l) in midpoint_literals(rng, if tier == "thorough" { 3000 } else { 200 }).into_iter().enumerate() {
+        let t = &toks[(i * 37) % toks.len()];
+        let mut s = t.clone();
+        s.push(b':');
+        s.extend_from_slice(l.as_bytes());
+        tok_line(w, "parse_token", &s);
+    }
     writeln!(w, "parse_range -").unwrap();
     tok_line(w, "parse_range", b"   ");
     tok_line(w, "parse_range", b"44");
@@ -157,6 +165,7 @@ pub fn gen_c09(tier: &str, rng: &mut Rng, w: &mut dyn Write) {
         }
     }
     shapes_stream(w);
+    weight_strings_all_kinds(w);
     // multi-byte characters spliced at every byte offset of valid texts
     let valid = ["AsKs", "QQ+", "A9s+:0.5", "88-66", "AQs-A9s:0.25", "AA:1", "As", "AsKs,QQ:0.5"];
     for v in valid {
@@ -191,7 +200,76 @@ pub fn gen_c09(tier: &str, rng: &mut Rng, w: &mut dyn Write) {
     }
 }
 
+/// exact decimal expansion of n / 2^k (k <= 60, n < 2^k): finite, k digits
+fn dyadic_decimal(mut n: u128, k: u32) -> String {
+    let mut s = String::from("0.");
+    let den: u128 = 1u128 << k;
+    for _ in 0..k {
+        n *= 10;
+        s.push((b'0' + (n / den) as u8) as char);
+        n %= den;
+    }
+    s
+}
+
+/// weight literals sitting just above / just below the midpoint of two neighbouring binary32 values (25+ significant
+/// digits): the correctly rounded value is determined by the far-away digit
+pub fn midpoint_literals(rng: &mut Rng, n: usize) -> Vec<String> {
+    let mut out = vec![];
+    for _ in 0..n {
+        // a weight in [2^-9, 1): exponent e in 118..=126, 23-bit mantissa
+        let e = 118 + rng.below(9) as u32;
+        let m = rng.below(1 << 23) as u128;
+        // value = (2^23 + m) * 2^(e - 150); midpoint with the next float = (2^24 + 2m + 1) * 2^(e - 151)
+        let k = 151 - e; // 25..=33
+        let mid_num: u128 = (1u128 << 24) + 2 * m + 1;
+        let mid = dyadic_decimal(mid_num, k);
+        // just above the midpoint: append a late 1; just below: decrement the last digit and append 9s
+        out.push(format!("{}0000001", mid));
+        let mut below: Vec<u8> = mid.clone().into_bytes();
+        // the expansion ends in 5 (odd numerator over a power of two): ...5 -> ...4999999
+        let last = below.len() - 1;
+        below[last] -= 1;
+        out.push(format!("{}9999999", String::from_utf8(below).unwrap()));
+        out.push(mid);
+    }
+    out
+}
+
+/// every string of length <= 4 over the alphabet `0 1 . 5 x` as a weight literal on each of the seven token kinds
+/// (each kind has its own copy of the weight sub-pattern)
+pub fn weight_strings_all_kinds(w: &mut dyn Write) {
+    let kinds: [&str; 7] = ["88-66", "AQs-A9s", "QQ+", "A9o+", "77", "JTs", "AsKd"];
+    let alpha = [b'0', b'1', b'.', b'5', b'x'];
+    let mut lits: Vec<Vec<u8>> = vec![vec![]];
+    let mut frontier: Vec<Vec<u8>> = vec![vec![]];
+    for _ in 0..4 {
+        let mut next = vec![];
+        for f in &frontier {
+            for a in alpha {
+                let mut g = f.clone();
+                g.push(a);
+                next.push(g);
+            }
+        }
+        lits.extend(next.iter().cloned());
+        frontier = next;
+    }
+    for k in kinds {
+        for l in &lits {
+            let mut s = k.as_bytes().to_vec();
+            s.push(b':');
+            s.extend_from_slice(l);
+            tok_line(w, "parse_token", &s);
+        }
+    }
+}
+
 pub fn gen_c10(tier: &str, rng: &mut Rng, w: &mut dyn Write) {
+    weight_strings_all_kinds(w);
+    for l in midpoint_literals(rng, if tier == "thorough" { 3000 } else { 150 }) {
+        tok_line(w, "parse_token", format!("AhKh:{}", l).as_bytes());
+    }
     // every weight literal [01](.d{0,3})? on three token kinds (the grammar accepts exactly those <= 1)
     for lead in ["0", "1"] {
         let mut lits: Vec<String> = vec![lead.to_string(), format!("{}.", lead)];
@@ -346,6 +424,34 @@ pub fn gen_c12(tier: &str, rng: &mut Rng, w: &mut dyn Write) {
         }
         // neighbouring rank pairs one ulp apart must not merge into one run
         emit_range_ops(w, &row_range(&[1, 2, 2, 1, 0, 1, 2, 1, 2, 2, 0, 0, 1], &[(0, vec![1, 2, 1, 1, 2, 2, 0, 1, 2, 0, 0, 1])], &[(1, vec![2, 1, 2, 1, 0, 0, 1, 1, 2, 2, 1])], wa, wb));
+    }
+    // small mixed ranges: one to three complete rank pairs plus a few stray combos, among them probe combos
+    // (spade/heart, spade/spade) of other, incomplete rank pairs
+    for _ in 0..(if thorough { 20000 } else { 1500 }) {
+        let mut es: Vec<(usize, u32)> = vec![];
+        for _ in 0..(1 + rng.below(3)) {
+            let x = rng.below(13) as usize;
+            let y = rng.below(13) as usize;
+            let wt = [WA, WB, 0x3E800000][rng.below(3) as usize];
+            let cs = if x == y { pocket_combos(x) } else { pair_combos(x.min(y), x.max(y), rng.below(2) == 0) };
+            for c in cs {
+                es.push((c, wt));
+            }
+        }
+        for _ in 0..rng.below(4) {
+            let x = rng.below(13) as usize;
+            let y = rng.below(13) as usize;
+            // probe-shaped strays: spade+heart, or spade+spade
+            let c = if x == y { combo_code(4 * x, 4 * x + 1) } else if rng.below(2) == 0 { combo_code(4 * x, 4 * y) } else { combo_code(4 * x.min(y), 4 * x.max(y) + 1) };
+            es.push((c, [WA, WB][rng.below(2) as usize]));
+        }
+        // strays first or last (scan order vs. insertion order are unrelated, but both are cheap to vary)
+        if rng.below(2) == 0 {
+            es.reverse();
+        }
+        es.sort_by_key(|e| e.0);
+        es.dedup_by_key(|e| e.0);
+        emit_range_ops(w, &es);
     }
     // whole ranges: seeded subsets with two or three weights; full and nearly full ranges
     let all = all_combos();
@@ -506,15 +612,35 @@ pub fn gen_c06(tier: &str, rng: &mut Rng, w: &mut dyn Write) {
     }
 }
 
+/// a seeded three-valued pattern along the whole kicker row of a seeded high card (ace .. trey)
+fn rand_row(rng: &mut Rng) -> (usize, Vec<u8>) {
+    let h = rng.below(12) as usize;
+    let len = 12 - h;
+    (h, digits3(rng.below(3u64.pow(len as u32)) as usize, len))
+}
+
 pub fn gen_c17(tier: &str, rng: &mut Rng, w: &mut dyn Write) {
+    // every single rank pair alone, and every pair of neighbouring rank pairs of a row
+    for h in 0..12usize {
+        for k in (h + 1)..13 {
+            for suited in [true, false] {
+                let mut es: Vec<(usize, u32)> = pair_combos(h, k, suited).into_iter().map(|c| (c, 0x3F000000)).collect();
+                emit_range_ops(w, &es);
+                if k + 1 < 13 {
+                    es.extend(pair_combos(h, k + 1, suited).into_iter().map(|c| (c, 0x3F000000)));
+                    emit_range_ops(w, &es);
+                }
+            }
+        }
+    }
     let thorough = tier == "thorough";
     let all = all_combos();
     let proper: [u32; 8] = [0x3F800000, 0x3F000000, 0x3DCCCCCD, 0x3E800000, 0x3F7FFFFF, 0, 0x3F000001, 0x3E7FFFFF];
     for i in 0..(if thorough { 4000 } else { 300 }) {
         let es: Vec<(usize, u32)> = if i % 3 == 0 {
             // rows of complete rank pairs plus leftovers
-            let mut es = row_range(&digits3(rng.below(1594323) as usize, 13), &[(rng.below(6) as usize, digits3(rng.below(729) as usize, 6))],
-                                   &[(rng.below(6) as usize, digits3(rng.below(729) as usize, 6))], proper[1 + rng.below(7) as usize], proper[rng.below(8) as usize]);
+            let mut es = row_range(&digits3(rng.below(1594323) as usize, 13), &[rand_row(rng)],
+                                   &[rand_row(rng)], proper[1 + rng.below(7) as usize], proper[rng.below(8) as usize]);
             for _ in 0..rng.below(5) {
                 es.push((all[rng.below(1326) as usize], proper[rng.below(8) as usize]));
             }
@@ -552,10 +678,10 @@ pub fn gen_c15(tier: &str, rng: &mut Rng, w: &mut dyn Write) {
         let mut line = format!("c15 {} {}", rng.next() % 1_000_000_007, k);
         let shared_ranges: Vec<Vec<(usize, u32)>> = (0..2).map(|_| { let sz = 1 + rng.below(3) as usize; random_range(rng, sz, false) }).collect();
         let shared_flop = random_flop(rng);
-        let mode = rng.below(3); // 0: independent inputs, 1: same ranges on different flops, 2: same flop
+        let mode = rng.below(4); // 0: independent inputs, 1/3: same ranges on different flops (3: the ranges hold cards of those flops), 2: same flop
         for inst in 0..k {
             let mut flop = if mode == 2 { shared_flop } else { random_flop(rng) };
-            if mode == 1 && inst > 0 {
+            if (mode == 1 || mode == 3) && inst > 0 {
                 // differ from the shared flop in one card only
                 flop = shared_flop;
                 loop {
@@ -571,11 +697,21 @@ pub fn gen_c15(tier: &str, rng: &mut Rng, w: &mut dyn Write) {
                 std::mem::swap(&mut a, &mut b);
             }
             let scoped = mode == 0 && rng.below(3) != 0;
-            let np = if mode == 1 { 2 } else { 1 + rng.below(2) as usize };
+            let np = if mode == 1 || mode == 3 { 2 } else { 1 + rng.below(2) as usize };
             line.push_str(&format!(" | 1 digest 0 {} {} {} - - {} {} {} {} {} {}", flop[0], flop[1], flop[2], a.0, a.1, b.0, b.1, scoped as u8, np));
             for pi in 0..np {
                 let sz = 1 + rng.below(4) as usize;
-                let r = if mode == 1 { shared_ranges[pi].clone() } else { random_range(rng, sz, false) };
+                let r = if mode == 1 { shared_ranges[pi].clone() } else if mode == 3 {
+                    // the shared ranges of mode 3: a combo through the shared flop's third card, one through card 0/1, plus the seeded ones
+                    let mut v = shared_ranges[pi].clone();
+                    let extra = [combo_code(shared_flop[2], (shared_flop[2] + 7 + pi) % 52), combo_code((shared_flop[0] + 13) % 52, (shared_flop[1] + 26) % 52)];
+                    for c in extra {
+                        if c / 52 != c % 52 && !v.iter().any(|e| e.0 == c) {
+                            v.push((c, 0x3F800000));
+                        }
+                    }
+                    v
+                } else { random_range(rng, sz, false) };
                 line.push_str(&format!(" {}", r.len()));
                 for (c, wb) in r {
                     line.push_str(&format!(" {} {}", c, wb));
@@ -587,13 +723,18 @@ pub fn gen_c15(tier: &str, rng: &mut Rng, w: &mut dyn Write) {
 }
 
 pub fn gen_c16(tier: &str, rng: &mut Rng, w: &mut dyn Write) {
-    let top = if tier == "thorough" { 65536 } else { 4096 };
-    for n in 1..=top {
+    for n in 1..=4096 {
         writeln!(w, "scopes {}", n).unwrap();
     }
-    for n in [16777214u32, 16777215, 16777216, 16777217, 16777218] {
-        if tier == "thorough" {
-            writeln!(w, "scopes {}", n).unwrap();
+    if tier == "thorough" {
+        // larger worker counts: well-formedness + digest only (the lists get long)
+        let mut n = 4097u32;
+        while n <= 65536 {
+            writeln!(w, "scopes_d {}", n).unwrap();
+            n += 1 + (n % 5);
+        }
+        for n in [100_000u32, 1_000_003, 16777214, 16777215, 16777216] {
+            writeln!(w, "scopes_d {}", n).unwrap();
         }
     }
     // end to end on the real evaluator: the per-scope results add up to the unscoped result
@@ -609,6 +750,16 @@ pub fn gen_c16(tier: &str, rng: &mut Rng, w: &mut dyn Write) {
 /// C11: inputs with 2-3 players and ranges of 1..60 combos (kept small enough for 24 + 3 re-enumerations)
 pub fn gen_c11(tier: &str, rng: &mut Rng, w: &mut dyn Write) {
     use crate::gen2::{random_flop, random_range};
+    // two players sharing a card of every rank (so that under the 24 relabellings every suit of that rank is shared once)
+    for r in 0..13usize {
+        let x = 4 * r + (r % 4);
+        let flop = [(x + 5) % 52, (x + 9) % 52, (x + 14) % 52];
+        let line = format!("c11 {} 1 digest 0 {} {} {} - - 0 1 48 49 0 2 2 {} 1065353216 {} 1056964608 2 {} 1065353216 {} 1048576000",
+            2 * (r as u64 + 1), flop[0], flop[1], flop[2],
+            combo_code(x, (x + 17) % 52), combo_code((x + 22) % 52, (x + 30) % 52),
+            combo_code(x, (x + 25) % 52), combo_code((x + 31) % 52, (x + 40) % 52));
+        writeln!(w, "{}", line).unwrap();
+    }
     for i in 0..(if tier == "thorough" { 400 } else { 24 }) {
         let flop = random_flop(rng);
         let np = 2 + rng.below(2) as usize;
